@@ -14,7 +14,7 @@ import z3
 
 from . import sym
 from .sym import fn, Ref, Name, R, I, B, EnvSort, PVSort, RealArr
-from .values import (BoundMethod, BuiltinRef, ClassRef, Closure, FuncRef, Obj, Opaque, PDict, PList, SArr, SBool,
+from .values import (HeapList, BoundMethod, BuiltinRef, ClassRef, Closure, FuncRef, Obj, Opaque, PDict, PList, SArr, SBool,
                      SInt, SMap, SName, SOpt, SReal, SSeq, SSet, SStrOpaque, SpecFn, Unsupported, num_term, real_term)
 
 UNARY_OPS = ["neg", "abs", "sin", "cos", "tan", "exp", "log", "log2", "log10", "sqrt", "tanh", "sinh", "cosh",
@@ -44,6 +44,17 @@ FIELD_CLS = {
     ("VectorSum", "vector"): "VectorVariable", ("VectorPowerSum", "vector"): "VectorVariable",
     ("VectorUnarySum", "vector"): "VectorVariable", ("ElementwisePower", "vector"): "VectorVariable",
     ("ElementwiseUnary", "vector"): "VectorVariable",
+}
+# class-specific field specs (take precedence over FIELDS): mutable state of Problem
+CLASS_FIELD_SPECS: dict[tuple[str, str], tuple[str, str | None, bool]] = {
+    ("Problem", "_objective"): ("optref", "Expression", True),
+    ("Problem", "_sense"): ("name", None, True),
+    ("Problem", "_constraints"): ("heaplist", "Constraint", True),
+    ("Problem", "_variables"): ("optseq", "Variable", True),
+    ("Problem", "_solver_cache"): ("optbox", None, True),
+    ("Problem", "_lp_cache"): ("optbox", None, True),
+    ("Problem", "_is_linear_cache"): ("optbool", None, True),
+    ("Problem", "name"): ("optname", None, True),
 }
 CLASS_FIELDS = {
     "Constant": ["value"], "Variable": ["name", "lb", "ub", "domain", "_sort_key"], "Parameter": ["name", "_value"],
@@ -104,7 +115,16 @@ class Schema:
         return fn("F_" + field, Ref, sort)
 
     def has_field(self, o: Opaque, attr: str) -> bool:
-        return attr in FIELDS or attr in ("_numpy_func", "matrix")
+        return (o.cls, attr) in CLASS_FIELD_SPECS or attr in FIELDS or attr in ("_numpy_func", "matrix")
+
+    def field_spec(self, ip, o: Opaque, attr: str):
+        cls = ip.exact_class(o) or o.cls
+        return CLASS_FIELD_SPECS.get((cls, attr)) or FIELDS.get(attr)
+
+    def skey(self, o: Opaque, attr: str, ip=None) -> str:
+        """store name of a mutable field (class-qualified for class-specific fields)"""
+        cls = (ip.exact_class(o) if ip else None) or o.cls
+        return f"{cls}.{attr}" if (cls, attr) in CLASS_FIELD_SPECS else attr
 
     def field_static_cls(self, ip, o: Opaque, attr: str) -> str:
         owner = ip.exact_class(o) or o.cls
@@ -120,8 +140,36 @@ class Schema:
             return SArr(fn("MAT_matrix", Ref, sym.RealMat)(o.ref), shape=(n, n))
         if attr == "matrix":
             return Opaque(self.F("matrix", Ref)(o.ref), "object")
-        tag, _cls, mutable = FIELDS[attr]
+        tag, _cls, mutable = self.field_spec(ip, o, attr)
         self.touch(ip, o)
+        sk = self.skey(o, attr, ip)
+        p = ip.path
+        if tag == "optref":
+            isn = z3.Select(p.store_of(sk + "!none", B), o.ref)
+            return SOpt(isn, Opaque(z3.Select(p.store_of(sk, Ref), o.ref), _cls))
+        if tag == "optbool":
+            isn = z3.Select(p.store_of(sk + "!none", B), o.ref)
+            return SOpt(isn, SBool(z3.Select(p.store_of(sk, B), o.ref)))
+        if tag == "optname":
+            return SStrOpaque(("name-of", o.ref))
+        if tag == "heaplist":
+            return HeapList(o, sk, _cls)
+        if tag == "optseq":
+            isn = z3.Select(p.store_of(sk + "!none", B), o.ref)
+            base = z3.Select(p.store_of(sk, Ref), o.ref)
+            return SOpt(isn, self.seq_of_base(ip, base, _cls))
+        if tag == "optbox":
+            isn = z3.Select(p.store_of(sk + "!none", B), o.ref)
+            box = z3.simplify(z3.Select(p.store_of(sk, Ref), o.ref))
+            boxed = p.ghost.get("boxed", {}).get(str(box))
+            if boxed is None:
+                hook = ip.reg.unbox_hooks.get(sk) if hasattr(ip.reg, "unbox_hooks") else None
+                if hook is None:
+                    raise Unsupported(f"content of {sk} is not tracked on this path")
+                boxed = hook(ip, o, box)
+            return SOpt(isn, boxed)
+        if tag == "name" and mutable and sk != attr:
+            return SName(z3.Select(p.store_of(sk, Name), o.ref))
         if tag == "ref":
             t = self.F(attr, Ref)(o.ref)
             child = Opaque(t, self.field_static_cls(ip, o, attr))
@@ -172,7 +220,44 @@ class Schema:
             return SpecFn(None, "sortkey", meta={"sortkey_of": o.ref})
         raise Unsupported(f"field {attr}")
 
+    def seq_of_base(self, ip, base, ecls):
+        """Immutable list object identified by `base`: LEN_any / ELEM_any projections."""
+        LEN = fn("LEN_any", Ref, I)
+        EL = fn("ELEM_any", Ref, I, Ref)
+        n = LEN(base)
+        ip.path.assume(n >= 0)
+
+        def get(k):
+            kt = k if not isinstance(k, int) else z3.IntVal(k)
+            er = EL(base, kt)
+            if ecls in self.kinds.const:
+                ip.path.assume(z3.Implies(z3.And(kt >= 0, kt < n), self.kinds.is_kind(er, ecls)))
+                if ip.path.entails(z3.And(kt >= 0, kt < n)):
+                    self.learn_kind(ip, er, ecls)
+            return Opaque(er, ecls, exact=ecls in self.kinds.const)
+        return SSeq(n, get, "list", "boxed-list", tag=("fresh", "list", base))
+
+    def base_of_seq(self, ip, S):
+        """Ref identifying a list value (boxing): sequences created by T.seq / seq_of_base carry their base."""
+        if isinstance(S, SSeq) and S.tag and S.tag[0] == "fresh":
+            return S.tag[2]
+        if isinstance(S, (SSeq, PList)):
+            S = ip.models.as_seq(S)
+            base = sym.fresh("listobj", Ref)
+            LEN = fn("LEN_any", Ref, I)
+            EL = fn("ELEM_any", Ref, I, Ref)
+            ip.path.assume(LEN(base) == ip.models.len_term(S.n))
+            ip.path.ghost.setdefault("boxed_seqs", {})[str(base)] = S
+            hook = getattr(ip.reg, "boxed_seq_hook", None)
+            if hook is not None:
+                hook(ip, base, S)
+            return base
+        raise Unsupported(f"cannot box {type(S).__name__} as a list object")
+
     def write_field(self, ip, o: Opaque, attr: str, v) -> None:
+        spec_ = self.field_spec(ip, o, attr)
+        if spec_ is not None and (ip.exact_class(o) or o.cls, attr) in CLASS_FIELD_SPECS:
+            return self.write_class_field(ip, o, attr, v, spec_)
         if attr not in FIELDS or not FIELDS[attr][2]:
             hook = ip.reg.field_write_hook(o, attr)
             if hook is not None:
@@ -205,6 +290,89 @@ class Schema:
                 ip.path.stores[attr] = z3.Store(ip.path.store_of(attr, R), o.ref, real_term(v))
         else:
             raise Unsupported(f"store to field {attr}")
+
+    def write_class_field(self, ip, o, attr, v, spec_):
+        tag, _cls, _m = spec_
+        sk = self.skey(o, attr, ip)
+        p = ip.path
+        p.event("field-write", (sk, o.ref))
+
+        def setnone(flag):
+            p.stores[sk + "!none"] = z3.Store(p.store_of(sk + "!none", B), o.ref, flag if not isinstance(flag, bool) else z3.BoolVal(flag))
+        if tag == "optref":
+            if v is None:
+                return setnone(True)
+            if isinstance(v, SOpt):
+                setnone(v.isnone)
+                v = v.val
+            else:
+                setnone(False)
+            p.stores[sk] = z3.Store(p.store_of(sk, Ref), o.ref, ip.models.ref_of(ip, v))
+            return
+        if tag == "optbool":
+            if v is None:
+                return setnone(True)
+            setnone(False)
+            t = v.t if isinstance(v, SBool) else z3.BoolVal(bool(v))
+            p.stores[sk] = z3.Store(p.store_of(sk, B), o.ref, t)
+            return
+        if tag == "name":
+            p.stores[sk] = z3.Store(p.store_of(sk, Name), o.ref, ip.models.name_term(v))
+            return
+        if tag == "optname":
+            return
+        if tag == "optseq":
+            if v is None:
+                return setnone(True)
+            setnone(False)
+            p.stores[sk] = z3.Store(p.store_of(sk, Ref), o.ref, self.base_of_seq(ip, v))
+            return
+        if tag == "optbox":
+            if v is None:
+                return setnone(True)
+            setnone(False)
+            box = sym.fresh("box", Ref)
+            p.ghost.setdefault("boxed", {})[str(box)] = v
+            p.stores[sk] = z3.Store(p.store_of(sk, Ref), o.ref, box)
+            return
+        if tag == "heaplist":
+            if isinstance(v, PList) and not v.items:
+                p.stores[sk + "!len"] = z3.Store(p.store_of(sk + "!len", I), o.ref, z3.IntVal(0))
+                return
+            raise Unsupported(f"assignment of a non-empty list to {sk}")
+        raise Unsupported(f"store to {sk}")
+
+    # ---- heap lists
+    def hl_len(self, ip, hl: HeapList):
+        return z3.Select(ip.path.store_of(hl.field + "!len", I), hl.owner.ref)
+
+    def hl_elems(self, ip, hl: HeapList):
+        return z3.Select(ip.path.store_of(hl.field + "!elems", sym.RefArr), hl.owner.ref)
+
+    def hl_snapshot(self, ip, hl: HeapList) -> SSeq:
+        n = self.hl_len(ip, hl)
+        arr = self.hl_elems(ip, hl)
+        ip.path.assume(n >= 0)
+        ecls = hl.elem_cls
+
+        def get(k):
+            kt = k if not isinstance(k, int) else z3.IntVal(k)
+            er = z3.Select(arr, kt)
+            if ecls in self.kinds.const:
+                ip.path.assume(z3.Implies(z3.And(kt >= 0, kt < n), self.kinds.is_kind(er, ecls)))
+                if ip.path.entails(z3.And(kt >= 0, kt < n)):
+                    self.learn_kind(ip, er, ecls)
+            return Opaque(er, ecls, exact=ecls in self.kinds.const)
+        return SSeq(n, get, "list", "heaplist-snapshot", tag=("heaplist", hl.field, hl.owner.ref, arr, n))
+
+    def hl_append(self, ip, hl: HeapList, v):
+        p = ip.path
+        n = self.hl_len(ip, hl)
+        arr = self.hl_elems(ip, hl)
+        ref = ip.models.ref_of(ip, v)
+        p.event("field-write", (hl.field, hl.owner.ref))
+        p.stores[hl.field + "!elems"] = z3.Store(p.store_of(hl.field + "!elems", sym.RefArr), hl.owner.ref, z3.Store(arr, n, ref))
+        p.stores[hl.field + "!len"] = z3.Store(p.store_of(hl.field + "!len", I), hl.owner.ref, n + 1)
 
     def hasattr(self, ip, o: Opaque, attr: str):
         if attr in FIELDS and FIELDS[attr][0] == "optint":
